@@ -46,7 +46,7 @@ theorem relife_recovers_aux (hA : A.Lawful) (cfg cfg' : Cfg) (hp : cfg.prune = n
   subst hrn
   obtain ⟨gfin, _⟩ := runOps_spec hA cfg hp ops rn0 g0
   have hinv : Inv (replay img ((runOps cfg rn0 ops).log.take k)) :=
-    inv_of_inv' (gfin.core.sound k) (created_replay _ _ hi.created)
+    inv_of_inv' (gfin.core.sound k).1 (created_replay _ _ hi.created)
   obtain ⟨rn', r', g', t', hrows⟩ := recover_spec cfg' hinv
   refine ⟨hinv, rn', r', g'.utxo_eq, ?_, ?_⟩
   · rw [t']
